@@ -352,8 +352,9 @@ PROPS = {
                     "common grid with arbitrary first timestamps: on return both inputs the steps read are the samples stamped "
                     "with the emitted timestamp; first run lands on the latest first timestamp reading nothing beyond it (loop "
                     "invariant for the drain loop); afterwards timestamps advance by exactly one step and the streams stay "
-                    "aligned (class invariant). FormulaEngine3Phase._run: loop invariant 'never mixes timestamps' - holds only "
-                    "for phase streams that start aligned; the unaligned start is a known finding.",
+                    "aligned (class invariant). FormulaEngine3Phase._run: loop invariant 'never mixes timestamps' for phase "
+                    "streams with arbitrary first timestamps - the samples held are always the latest read of their streams "
+                    "(invariant of the alignment loop) and a message is built only once their timestamps agree.",
         assumptions=[EXTRACTION,
                      "stream model (assumed): each receiver delivers first + k*step in order; delivery interleavings are "
                      "irrelevant under it (receive returns the same sample whatever the interleaving)",
